@@ -64,6 +64,7 @@ HEAP_SORTS = {
     "optseq": {"": arr(Ref, I, R), "len": arr(Ref, I), "none": arr(Ref, B)},
     # union None | ndarray | callable bound to (owner container): kind 0/1/2
     "map": {"size": arr(Ref, I)},
+    "optmat": {"": arr(Ref, I, I, R), "rows": arr(Ref, I), "cols": arr(Ref, I), "none": arr(Ref, B)},
     "optrefseq": {"": arr(Ref, I, Ref), "len": arr(Ref, I), "none": arr(Ref, B)},
     "namemap": {"": arr(Ref, I, Ref), "len": arr(Ref, I), "names": arr(Ref, I, Name)},
     "callref": {"kind": arr(Ref, I), "": arr(Ref, I, R), "len": arr(Ref, I), "owner": arr(Ref, Ref)},
@@ -191,9 +192,18 @@ class VBoolSeq(V):
         self.fn, self.len = fn, n
 
 
+class VBoolMat(V):
+    def __init__(self, fn, rows, cols):
+        self.fn, self.rows, self.cols = fn, rows, cols
+
+
 class VMat(V):
-    def __init__(self, a, rows, cols):
+    none = None   # z3 Bool for Optional[matrix] values read from an 'optmat' field
+
+    def __init__(self, a, rows, cols, none=None):
         self.arr, self.rows, self.cols = a, rows, cols
+        if none is not None:
+            self.none = none
 
     def at(self, i, j):
         return self.arr[i][j]
@@ -539,6 +549,8 @@ class Engine:
             return VMat(sel(st.h(field, k), ref.e), sel(st.h(field, k, "rows"), ref.e), sel(st.h(field, k, "cols"), ref.e))
         if k == "refseq":
             return VRefSeq(sel(st.h(field, k), ref.e), sel(st.h(field, k, "len"), ref.e), t.cls)
+        if k == "optmat":
+            return VMat(sel(st.h(field, k), ref.e), sel(st.h(field, k, "rows"), ref.e), sel(st.h(field, k, "cols"), ref.e), none=sel(st.h(field, k, "none"), ref.e))
         if k == "optrefseq":
             return VRefSeq(sel(st.h(field, k), ref.e), sel(st.h(field, k, "len"), ref.e), t.cls, none=sel(st.h(field, k, "none"), ref.e))
         if k == "namemap":
@@ -605,6 +617,14 @@ class Engine:
             st.set_h(field, k, "", z3.Store(st.h(field, k), ref.e, v.arr))
             st.set_h(field, k, "len", z3.Store(st.h(field, k, "len"), ref.e, v.len))
             st.set_h(field, k, "names", z3.Store(st.h(field, k, "names"), ref.e, v.names))
+        elif k == "optmat":
+            if isinstance(v, VNone):
+                st.set_h(field, k, "none", z3.Store(st.h(field, k, "none"), ref.e, z3.BoolVal(True)))
+            else:
+                st.set_h(field, k, "", z3.Store(st.h(field, k), ref.e, materialise(v.arr, field)))
+                st.set_h(field, k, "rows", z3.Store(st.h(field, k, "rows"), ref.e, v.rows))
+                st.set_h(field, k, "cols", z3.Store(st.h(field, k, "cols"), ref.e, v.cols))
+                st.set_h(field, k, "none", z3.Store(st.h(field, k, "none"), ref.e, v.none if v.none is not None else z3.BoolVal(False)))
         elif k == "optrefseq":
             if isinstance(v, VNone):
                 st.set_h(field, k, "none", z3.Store(st.h(field, k, "none"), ref.e, z3.BoolVal(True)))
@@ -810,6 +830,8 @@ class Engine:
         return VStr("<f-string>")
 
     def ev_ListComp(self, n, st):
+        if ast.unparse(n) in getattr(self, "comp_models", {}):       # table-driven model of one specific comprehension (listed as trusted)
+            return self.comp_models[ast.unparse(n)](self, st, n)
         if len(n.generators) != 1 or n.generators[0].ifs:
             raise Unsupported("comprehension " + ast.unparse(n))
         g = n.generators[0]
@@ -867,6 +889,9 @@ class Engine:
             return VBound(base, n.attr)
         if isinstance(base, VNum) and n.attr in ("lower", "upper", "strip"):
             raise PyRaise("AttributeError")
+        if type(base).__name__ in ("VExternalResult", "VOptResult") and hasattr(base, n.attr):     # result records of external calls defined by contract modules
+            val_ = getattr(base, n.attr)
+            return val_ if isinstance(val_, V) else VNum(val_)
         if isinstance(base, VExternal):
             return VBound(base, n.attr)
         if isinstance(base, VNode):
@@ -915,6 +940,8 @@ class Engine:
             return VBound(base, "dot")
         if isinstance(base, VSeq) and n.attr == "append":
             return VBound(base, "append")
+        if isinstance(base, VBoolMat) and n.attr in ("all", "any"):
+            return VBound(base, n.attr)
         if isinstance(base, (VSeq, VMat)) and n.attr == "copy":
             return VBound(base, "copy")
         if isinstance(base, (VSeq, VNum, VMat)) and n.attr == "ndim":
@@ -1097,6 +1124,10 @@ class Engine:
                         c = left.none
                     elif isinstance(left, VRefSeq):
                         c = left.none
+                    elif isinstance(left, VMat) and left.none is not None:
+                        c = left.none
+                    elif type(left).__name__ == "VOptTerm":
+                        c = left.none
                     elif isinstance(left, (VNum, VTuple, VSeq, VMat, VBool, VDict)):
                         c = z3.BoolVal(False)
                     elif isinstance(left, VCallRef):
@@ -1115,9 +1146,25 @@ class Engine:
                 conj.append({ast.Lt: x < y, ast.LtE: x <= y, ast.Gt: x > y, ast.GtE: x >= y, ast.Eq: x == y, ast.NotEq: x != y}[type(op)])
             elif isinstance(left, VStr) and isinstance(right, VStr):
                 conj.append(z3.BoolVal({ast.Eq: left.s == right.s, ast.NotEq: left.s != right.s}[type(op)]))
+            elif isinstance(left, VTuple) and isinstance(right, VTuple) and isinstance(op, (ast.Eq, ast.NotEq)) and all(isinstance(q_, (VNum, VNone)) for q_ in left.items + right.items) and any(isinstance(q_, VNone) for q_ in left.items + right.items):
+                parts = [z3.BoolVal(len(left.items) == len(right.items))]
+                for a_, b_ in zip(left.items, right.items):
+                    if isinstance(a_, VNone) or isinstance(b_, VNone):
+                        parts.append(z3.BoolVal(isinstance(a_, VNone) and isinstance(b_, VNone)))
+                    else:
+                        parts.append(num_pair(a_, b_)[0] == num_pair(a_, b_)[1])
+                eq_ = z3.And(parts)
+                conj.append(eq_ if isinstance(op, ast.Eq) else z3.Not(eq_))
             elif isinstance(left, VTuple) and isinstance(right, VTuple) and isinstance(op, (ast.Eq, ast.NotEq)) and all(isinstance(q_, VNum) for q_ in left.items + right.items):
                 eq_ = z3.And([z3.BoolVal(len(left.items) == len(right.items))] + [num_pair(a_, b_)[0] == num_pair(a_, b_)[1] for a_, b_ in zip(left.items, right.items)])
                 conj.append(eq_ if isinstance(op, ast.Eq) else z3.Not(eq_))
+            elif any(isinstance(x_, VLib) and x_.name.startswith("logging.") for x_ in (left, right)):
+                conj.append(fresh("log_level_test", B))          # the log level is environment: either outcome
+            elif isinstance(left, VMat) and isinstance(right, VNum) and len(n.ops) == 1:
+                cmpm = {ast.Lt: lambda x, y: x < y, ast.LtE: lambda x, y: x <= y, ast.Gt: lambda x, y: x > y, ast.GtE: lambda x, y: x >= y, ast.Eq: lambda x, y: x == y, ast.NotEq: lambda x, y: x != y}[type(op)]
+                return VBoolMat(lambda i_, j_, left=left, right=right: cmpm(left.arr[i_][j_], right.real()), left.rows, left.cols)
+            elif isinstance(left, VMat) and isinstance(right, VMat) and len(n.ops) == 1 and isinstance(op, (ast.Eq, ast.NotEq)):
+                return VBoolMat(lambda i_, j_, left=left, right=right, op=op: (left.arr[i_][j_] == right.arr[i_][j_]) if isinstance(op, ast.Eq) else (left.arr[i_][j_] != right.arr[i_][j_]), left.rows, left.cols)
             elif (isinstance(left, VSeq) or isinstance(right, VSeq)) and len(n.ops) == 1 and isinstance(left, (VSeq, VNum)) and isinstance(right, (VSeq, VNum)):
                 cmpf = {ast.Lt: lambda x, y: x < y, ast.LtE: lambda x, y: x <= y, ast.Gt: lambda x, y: x > y, ast.GtE: lambda x, y: x >= y, ast.Eq: lambda x, y: x == y, ast.NotEq: lambda x, y: x != y}[type(op)]
                 ln = left.len if isinstance(left, VSeq) else right.len
@@ -1137,6 +1184,10 @@ class Engine:
 
     def ev_Subscript(self, n, st):
         base = self.ev(n.value, st)
+        if getattr(self, "subscript_hook", None) is not None:       # contract-module model for an indexing form the core does not know (listed as trusted)
+            r_ = self.subscript_hook(self, st, n, base)
+            if r_ is not None:
+                return r_
         if isinstance(base, VDict):
             k = self.key_of(self.ev(n.slice, st))
             if k not in base.d:
@@ -1151,6 +1202,15 @@ class Engine:
                 return VTuple(base.items[lo:hi])
             i = z3.simplify(self.ev(n.slice, st).e).as_long()
             return base.items[i]
+        if isinstance(base, VMat) and isinstance(n.slice, ast.Tuple) and len(n.slice.elts) == 2 and not any(isinstance(q_, ast.Slice) for q_ in n.slice.elts):
+            ia, ja = self.ev(n.slice.elts[0], st), self.ev(n.slice.elts[1], st)
+            if isinstance(ia, VSeq) and isinstance(ja, VSeq):      # M[row_index_array, col_index_array]: pairwise fancy indexing
+                self.oblige("pre@fancy2d-shape:" + ast.unparse(n)[:50], st, ia.len == ja.len)
+                q_ = z3.Int("q!f2")
+                self.oblige("pre@fancy2d-range:" + ast.unparse(n)[:50], st, z3.ForAll([q_], z3.Implies(z3.And(0 <= q_, q_ < ia.len), z3.And(0 <= z3.ToInt(ia.arr[q_]), z3.ToInt(ia.arr[q_]) < base.rows, 0 <= z3.ToInt(ja.arr[q_]), z3.ToInt(ja.arr[q_]) < base.cols))))
+                return VSeq(FnArr(lambda k_: base.arr[z3.ToInt(ia.arr[k_])][z3.ToInt(ja.arr[k_])]), ia.len)
+            if isinstance(ia, VNum) and isinstance(ja, VNum):
+                return VNum(base.arr[ia.e if ia.is_int else z3.ToInt(ia.e)][ja.e if ja.is_int else z3.ToInt(ja.e)])
         if isinstance(base, VMat) and not isinstance(n.slice, (ast.Slice, ast.Tuple)):
             r_ = self.ev(n.slice, st).e
             self.oblige("pre@row-index:" + ast.unparse(n), st, z3.And(0 <= r_, r_ < base.rows))
@@ -1288,7 +1348,7 @@ class Engine:
                 return self.call_method(st, args[0], f.name, args[1:], kw, node=n, after=prev)
         if isinstance(f, VBound) and f.name == "dot" and getattr(self, "dot_model", None) is not None and not isinstance(f.recv, (VRef, VLib)):
             return self.dot_model(f.recv, args[0])
-        if isinstance(f, VBound) and isinstance(f.recv, VBoolSeq):
+        if isinstance(f, VBound) and isinstance(f.recv, (VBoolSeq, VBoolMat)):
             return self.bool_reduce(f.recv, f.name)
         if isinstance(f, VBound):
             if f.name in ("copy", "values") and not isinstance(f.recv, VRef):
@@ -1299,6 +1359,10 @@ class Engine:
         raise Unsupported("call " + ast.unparse(n.func))
 
     def bool_reduce(self, bs, how):
+        if isinstance(bs, VBoolMat):
+            q1, q2 = z3.Ints("q1!red q2!red")
+            rng = z3.And(0 <= q1, q1 < bs.rows, 0 <= q2, q2 < bs.cols)
+            return VBool(z3.ForAll([q1, q2], z3.Implies(rng, bs.fn(q1, q2))) if how == "all" else z3.Exists([q1, q2], z3.And(rng, bs.fn(q1, q2))))
         q = z3.Int("q!red")
         rng = z3.And(0 <= q, q < bs.len)
         return VBool(z3.ForAll([q], z3.Implies(rng, bs.fn(q))) if how == "all" else z3.Exists([q], z3.And(rng, bs.fn(q))))
@@ -1484,6 +1548,11 @@ class Engine:
             if f in ("warnings.warn", "print"):
                 self.dropped.append(f)
                 return [(st, "next", None)]
+            if f.endswith(".append") and isinstance(n.value.func.value, ast.Name) and isinstance(st.locals.get(n.value.func.value.id), VSeq):
+                seq = st.locals[n.value.func.value.id]
+                v = self.ev(n.value.args[0], st)
+                st.locals[n.value.func.value.id] = VSeq(z3.Store(materialise(seq.arr), seq.len, v.real()), seq.len + 1, pylist=True)
+                return [(st, "next", None)]
             if f.endswith(".append") and isinstance(n.value.func.value, ast.Attribute):
                 tgt = n.value.func.value
                 seq = self.ev(tgt, st)
@@ -1561,13 +1630,40 @@ class Engine:
         elif isinstance(t, ast.Subscript) and isinstance(self.ev(t.value, st), VDict):
             self.ev(t.value, st).d[self.key_of(self.ev(t.slice, st))] = v
         elif isinstance(t, ast.Subscript) and isinstance(t.slice, ast.Tuple) and len(t.slice.elts) == 2 and isinstance(t.slice.elts[1], ast.Slice) and isinstance(self.ev(t.value, st), VMat):
-            M_ = self.ev(t.value, st)      # M[r, :] = v   (row assignment)
+            M_ = self.ev(t.value, st)      # M[r, lo:hi] = v   (row (slice) assignment)
             r_ = self.ev(t.slice.elts[0], st).e
-            self.oblige("pre@row-store:" + ast.unparse(t), st, z3.And(0 <= r_, r_ < M_.rows))
+            if r_.sort() == R:
+                r_ = z3.ToInt(r_)
+            sl_ = t.slice.elts[1]
+            lo_ = self.norm_index(self.ev(sl_.lower, st).e, M_.cols) if sl_.lower is not None else z3.IntVal(0)
+            if sl_.upper is not None:
+                hi_ = self.ev(sl_.upper, st).e
+                up_ = sl_.upper
+                hi_ = M_.cols + hi_ if isinstance(up_, ast.UnaryOp) and isinstance(up_.op, ast.USub) else self.norm_index(hi_, M_.cols)
+            else:
+                hi_ = M_.cols
+            self.oblige("pre@row-store:" + ast.unparse(t), st, z3.And(0 <= r_, r_ < M_.rows, 0 <= lo_, lo_ <= hi_, hi_ <= M_.cols))
             if isinstance(v, VSeq):
-                self.oblige("pre@row-store-shape:" + ast.unparse(t), st, v.len == M_.cols)
+                self.oblige("pre@row-store-shape:" + ast.unparse(t), st, v.len == hi_ - lo_)
+            rowv = (lambda j_: v.arr[j_ - lo_]) if isinstance(v, VSeq) else (lambda j_: v.real())
+            self.store(t.value, VMat(FnArr(lambda i_: FnArr(lambda j_: z3.If(z3.And(i_ == r_, lo_ <= j_, j_ < hi_), rowv(j_), M_.arr[i_][j_]))), M_.rows, M_.cols), st)
+        elif isinstance(t, ast.Subscript) and not isinstance(t.slice, (ast.Tuple, ast.Slice)) and isinstance(self.ev(t.value, st), VMat):
+            M_ = self.ev(t.value, st)      # M[r] = v
+            r_ = self.ev(t.slice, st).e
+            if r_.sort() == R:
+                r_ = z3.ToInt(r_)
+            self.oblige("pre@row-store:" + ast.unparse(t), st, z3.And(0 <= r_, r_ < M_.rows))
             rowv = (lambda j_: v.arr[j_]) if isinstance(v, VSeq) else (lambda j_: v.real())
             self.store(t.value, VMat(FnArr(lambda i_: FnArr(lambda j_: z3.If(i_ == r_, rowv(j_), M_.arr[i_][j_]))), M_.rows, M_.cols), st)
+        elif isinstance(t, ast.Subscript) and isinstance(t.slice, ast.Tuple) and len(t.slice.elts) == 2 and not any(isinstance(q_, ast.Slice) for q_ in t.slice.elts) and isinstance(self.ev(t.value, st), VMat):
+            M_ = self.ev(t.value, st)      # M[r, c] = v
+            r_, c_ = self.ev(t.slice.elts[0], st).e, self.ev(t.slice.elts[1], st).e
+            if r_.sort() == R:
+                r_ = z3.ToInt(r_)
+            if c_.sort() == R:
+                c_ = z3.ToInt(c_)
+            self.oblige("pre@element-store:" + ast.unparse(t), st, z3.And(0 <= r_, r_ < M_.rows, 0 <= c_, c_ < M_.cols))
+            self.store(t.value, VMat(FnArr(lambda i_: FnArr(lambda j_: z3.If(z3.And(i_ == r_, j_ == c_), v.real(), M_.arr[i_][j_]))), M_.rows, M_.cols), st)
         elif isinstance(t, ast.Subscript) and isinstance(t.slice, ast.Slice):
             seq = self.ev(t.value, st)
             lo = self.norm_index(self.ev(t.slice.lower, st).e, seq.len) if t.slice.lower is not None else z3.IntVal(0)
@@ -1655,16 +1751,19 @@ class Engine:
             return VBool(fresh(name, B))
         return v
 
-    def callee_effects(self, body, depth=0, seen=None):
+    def callee_effects(self, body, depth=0, seen=None, self_cls=None):
         """heap fields a loop body may modify through calls: the `modifies` of every registered contract whose method/setter name is
         called or assigned in the body, plus (recursively, by name, over all loaded classes) the fields assigned by inlined callees.
         Over-approximation: all of these are havocked for ALL objects at the loop head."""
         seen = set() if seen is None else seen
         out = set()
         names = set()
+        on_self = set()      # (name, kind) pairs only ever used on `self`: resolved through the receiver's MRO instead of all classes
+        is_self = lambda v_: isinstance(v_, ast.Name) and v_.id == "self"
         for x in ast.walk(ast.Module(body=list(body), type_ignores=[])):
             if isinstance(x, ast.Call) and isinstance(x.func, ast.Attribute):
                 names.add((x.func.attr, None))
+                (on_self.add if is_self(x.func.value) else on_self.discard)((x.func.attr, None)) if ((x.func.attr, None) not in names or is_self(x.func.value)) else None
             elif isinstance(x, ast.Attribute) and isinstance(x.ctx, ast.Store):
                 names.add((x.attr, "setter"))
                 for cls_, flds in self.schema.items():
@@ -1673,6 +1772,9 @@ class Engine:
                         out |= {(x.attr, t.kind, part) for part in HEAP_SORTS.get(t.kind, {})}
             elif isinstance(x, ast.Attribute) and isinstance(x.ctx, ast.Load):
                 names.add((x.attr, "getter"))
+                if not is_self(x.value):
+                    on_self.discard((x.attr, "getter"))
+                    names.add((x.attr, "getter-any"))
             elif isinstance(x, ast.Subscript) and isinstance(x.ctx, ast.Store) and isinstance(x.slice, ast.Constant) and isinstance(x.slice.value, str):
                 for cls_, flds in self.schema.items():
                     if isinstance(flds, dict) and x.slice.value in flds:
@@ -1687,7 +1789,10 @@ class Engine:
                 if (nm, kind) in seen:
                     continue
                 seen.add((nm, kind))
-                for cname in list(self.repo.classes):
+                if kind == "getter-any":
+                    continue
+                self_only = self_cls is not None and kind == "getter" and (nm, "getter-any") not in names
+                for cname in (self.repo.mro(self_cls) if self_only else list(self.repo.classes)):
                     c = self.contracts.get((cname, nm, kind))
                     if c is not None and not c.inline:
                         continue
@@ -1702,7 +1807,7 @@ class Engine:
                                 for cls2, flds in self.schema.items():
                                     if isinstance(flds, dict) and fl in flds:
                                         out |= {(fl, flds[fl].kind, part) for part in HEAP_SORTS.get(flds[fl].kind, {})}
-                            out |= self.callee_effects(f.body, depth + 1, seen)
+                            out |= self.callee_effects(f.body, depth + 1, seen, self_cls=cname if self_only else None)
         return {m_ for m_ in out if m_[1] in HEAP_SORTS}
 
     def havoc_for_loop(self, st, body, extra_locals=()):
@@ -1719,7 +1824,7 @@ class Engine:
             for part, srt in HEAP_SORTS[t.kind].items():
                 old = h.h(x, t.kind, part)
                 h.set_h(x, t.kind, part, z3.Store(old, me.e, fresh(f"self.{x}.{part}", srt.range())))
-        for (field, kind, part) in sorted(self.callee_effects(body) | set(getattr(self, "loop_havoc", []))):
+        for (field, kind, part) in sorted(self.callee_effects(body, self_cls=me.cls if me is not None else None) | set(getattr(self, "loop_havoc", []))):
             old = h.h(field, kind, part)
             h.set_h(field, kind, part, fresh(f"H_{field}", old.sort()))
         return h
